@@ -67,6 +67,7 @@ import (
 	"github.com/keep-network/keep-core/pkg/chain"
 	"github.com/keep-network/keep-core/pkg/chain/local_v1"
 	"github.com/keep-network/keep-core/pkg/internal/tecdsatest"
+	"github.com/keep-network/keep-core/pkg/net"
 	netlocal "github.com/keep-network/keep-core/pkg/net/local"
 	"github.com/keep-network/keep-core/pkg/operator"
 	"github.com/keep-network/keep-core/pkg/protocol/group"
@@ -597,6 +598,17 @@ func c08Register(t *testing.T, rep *kit.Report, key string, lc *localChain, gp *
 	return out
 }
 
+// c08Chan records what a member sends before handing it to the real channel.
+type c08Chan struct {
+	net.BroadcastChannel
+	onSend func(m net.TaggedMarshaler)
+}
+
+func (c *c08Chan) Send(ctx context.Context, m net.TaggedMarshaler, st ...net.RetransmissionStrategy) error {
+	c.onSend(m)
+	return c.BroadcastChannel.Send(ctx, m, st...)
+}
+
 type c08SignOutcome struct {
 	sig *tecdsa.Signature
 	err error
@@ -606,15 +618,42 @@ var c08ChannelSeq int
 
 // c08SignWith runs the real signing.Execute for the signers with the given
 // final indices (arguments computed as signingExecutor.sign computes them) and
-// checks the C08 observations. intruder (0 = none) is an unselected final index
-// whose signer runs Execute nevertheless.
+// checks the C08 observations. intruders are unselected final indices whose
+// signers run Execute nevertheless (with the same excluded list).
 func c08SignWith(t *testing.T, rep *kit.Report, key string, lc *localChain, gp *GroupParameters, seats []*c08Seat,
-	all []chain.Address, byIdx map[int]*signer, selected []int, intruder int, message *big.Int, budget time.Duration) bool {
+	all []chain.Address, byIdx map[int]*signer, selected []int, intruders []int, message *big.Int, budget time.Duration) bool {
 	c08ChannelSeq++
 	chName := fmt.Sprintf("verif-c08-%d-%d-%d", kit.Seed(), time.Now().UnixNano(), c08ChannelSeq)
 	ctx, cancel := context.WithTimeout(context.Background(), budget)
 	defer cancel()
 	sessionID := fmt.Sprintf("%v-%v", message.Text(16), 1)
+	var mu sync.Mutex
+	wireDiverged := false
+	// what a selected signer puts on the wire: point-to-point parts exactly for the other selected signers
+	onSend := func(f int) func(m net.TaggedMarshaler) {
+		return func(m net.TaggedMarshaler) {
+			typ, sender, session, peers, hasPeers := signing.VerifC08Describe(m)
+			if typ == "" || c08Contains(intruders, f) {
+				return
+			}
+			var want []int
+			for _, x := range selected {
+				if x != f {
+					want = append(want, x)
+				}
+			}
+			bad := sender != f || session != sessionID || (hasPeers && !c08Eq(peers, want))
+			rep.Count("wire_messages", 1)
+			mu.Lock()
+			defer mu.Unlock()
+			if bad && !wireDiverged {
+				wireDiverged = true
+				rep.Diverge(key+":wire", fmt.Sprintf("signer with final index %d sent %s as member %d of session %q addressing members %v; the attempt's other signers are %v",
+					f, typ, sender, session, peers, want), map[string]interface{}{"signers": selected}, want, peers)
+				cancel() // no point in waiting for a set-up that cannot complete
+			}
+		}
+	}
 	run := func(f int, out chan<- c08SignOutcome) {
 		s := byIdx[f]
 		if s == nil {
@@ -633,6 +672,7 @@ func c08SignWith(t *testing.T, rep *kit.Report, key string, lc *localChain, gp *
 			return
 		}
 		signing.RegisterUnmarshallers(ch)
+		ch = &c08Chan{BroadcastChannel: ch, onSend: onSend(f)}
 		validator := group.NewMembershipValidator(&testutils.MockLogger{}, w.signingGroupOperators, lc.Signing())
 		var excl []group.MemberIndex
 		for i := 1; i <= w.groupSize(); i++ {
@@ -658,10 +698,10 @@ func c08SignWith(t *testing.T, rep *kit.Report, key string, lc *localChain, gp *
 		outs[i] = make(chan c08SignOutcome, 2)
 		go run(f, outs[i])
 	}
-	var intr chan c08SignOutcome
-	if intruder != 0 {
-		intr = make(chan c08SignOutcome, 2)
-		go run(intruder, intr)
+	intr := make([]chan c08SignOutcome, len(intruders))
+	for i, f := range intruders {
+		intr[i] = make(chan c08SignOutcome, 2)
+		go run(f, intr[i])
 	}
 	t0 := time.Now()
 	var sigs []*tecdsa.Signature
@@ -669,6 +709,13 @@ func c08SignWith(t *testing.T, rep *kit.Report, key string, lc *localChain, gp *
 	for i, f := range selected {
 		o := <-outs[i]
 		if o.err != nil {
+			mu.Lock()
+			wd := wireDiverged
+			mu.Unlock()
+			if wd {
+				good = false
+				continue
+			}
 			if ctx.Err() != nil && !strings.HasPrefix(o.err.Error(), "panic:") && !strings.HasPrefix(o.err.Error(), "no signer") &&
 				!strings.HasPrefix(o.err.Error(), "final operators") {
 				// the budget ran out: slowness must never become a violation
@@ -706,12 +753,12 @@ func c08SignWith(t *testing.T, rep *kit.Report, key string, lc *localChain, gp *
 			good = false
 		}
 	}
-	if intr != nil {
-		// the intruder must not have obtained a signature before the attempt's members finished
+	for i, f := range intruders {
+		// an unselected signer must not have obtained a signature by the time the attempt's members finished
 		select {
-		case o := <-intr:
+		case o := <-intr[i]:
 			if o.err == nil {
-				rep.Diverge(key+":intruder", fmt.Sprintf("the signer with unselected final index %d completed the signing attempt", intruder),
+				rep.Diverge(key+":intruder", fmt.Sprintf("the signer with unselected final index %d completed the signing attempt", f),
 					map[string]interface{}{"signers": selected}, "no result", o.sig.String())
 				good = false
 			}
@@ -752,7 +799,7 @@ func TestVerif_C08_Sign(t *testing.T) {
 			t.Fatalf("harness: real signing needs the 3-of-5 fixture group, got n=%d h=%d", n, h)
 		}
 		gp := &GroupParameters{GroupSize: n, GroupQuorum: q, HonestThreshold: h}
-		excluded, selected, intruder := r.Get("excluded").Ints(), r.Get("signers").Ints(), r.Get("intruder").Int()
+		excluded, selected, intruders := r.Get("excluded").Ints(), r.Get("signers").Ints(), r.Get("intruders").Ints()
 		key := fmt.Sprintf("sign:excl=%s,signers=%s", r.Get("excluded").JSON(), r.Get("signers").JSON())
 		seats := c08Seats(t, lc, n)
 		all := make([]chain.Address, n)
@@ -786,7 +833,7 @@ func TestVerif_C08_Sign(t *testing.T) {
 			continue
 		}
 		msg := c08Message(rnd, ri)
-		ok := c08SignWith(t, rep, key, lc, gp, seats, all, byIdx, selected, intruder, msg, budget)
+		ok := c08SignWith(t, rep, key, lc, gp, seats, all, byIdx, selected, intruders, msg, budget)
 		nt := ""
 		if len(excluded) > 0 {
 			nt = key
@@ -911,7 +958,7 @@ func TestVerif_C08_KeygenSign(t *testing.T) {
 		for si, sel := range r.Get("signerSets").List() {
 			skey := fmt.Sprintf("%s,signers=%s", key, sel.JSON())
 			msg := c08Message(rnd, ri+si+1)
-			ok := c08SignWith(t, rep, skey, lc, gp, seats, all, byIdx, sel.Ints(), 0, msg, budget)
+			ok := c08SignWith(t, rep, skey, lc, gp, seats, all, byIdx, sel.Ints(), nil, msg, budget)
 			rep.Eval(skey, map[string]interface{}{"excluded": excluded, "signers": sel.Ints(), "realKeygen": true, "ok": ok})
 		}
 	}
